@@ -38,6 +38,7 @@ func main() {
 	tier := fs.String("tier", "quick", "quick|thorough")
 	locks := fs.Bool("locks", false, "lock discipline obligations")
 	interfere := fs.Bool("interfere", false, "model interference on atomic_only locations")
+	inlineFlag := fs.String("inline", "", "comma-separated function keys to inline although they have a contract")
 	workers := fs.Int("j", 10, "parallel obligations")
 	cpuprof := fs.String("cpuprofile", "", "write cpu profile")
 	fs.Parse(os.Args[2:])
@@ -118,6 +119,9 @@ func main() {
 		us := UnitSpec{Fn: *fnKey, Mode: *mode, Locks: *locks, Interfere: *interfere}
 		if *interfere {
 			us.Tags = []string{"C11"}
+		}
+		if *inlineFlag != "" {
+			us.Inline = strings.Split(*inlineFlag, ",")
 		}
 		r := eng.runUnit(us)
 		discharge(r.Obls, *timeout, false, *workers)
